@@ -4,11 +4,13 @@ import numpy as np
 from harness import common as C
 from harness import eofgen as G
 
-ANCHORS = ["T5pop"]
+ANCHORS = ["T5pop", "T5flag"]
 MODELS = ["PopCase"]
 RULE = ("time-ordered multivariate series with more samples than retained PCs: random red noise (VAR(1)) and noise-free damped oscillators "
         "x_{t+1} = A x_t with prescribed eigenvalues rho e^{+-i omega} (plus optional real ones), embedded in p >= q features; use_pca on/off, "
-        "n_pca_modes 2..5, center/standardize/use_coslat flags, 1-D and lat-lon feature layouts; non-trivial: q >= 2 and n > q + 1 and the "
+        "n_pca_modes 2..5, center/standardize/use_coslat flags, 1-D and lat-lon feature layouts; in 30% of the cases the model object was fitted "
+        "on unrelated data of the same structure, queried through every accessor, transform, inverse_transform, compute() and serialize(), and "
+        "then fitted on the case's data (call history before the fit); non-trivial: q >= 2 and n > q + 1 and the "
         "eigen-residual was evaluated; distinct by input hash")
 PARTIAL = ["C18_recovery_full (completeness of the eigen-oracle answer; numpy's log/abs/angle are the mathematical functions) is stated, not proved: "
            "recovered period 2 pi/omega and damping -1/log(rho) are tested on synthetic oscillators to 1e-6",
@@ -97,6 +99,7 @@ def make_cfg(rng, i):
         X = gen_rednoise(rng, n, p)
         cfg = dict(kind="rednoise", n=n, p=p, q=q, use_pca=use_pca, n_pca_modes=q, center=bool(rng.random() < 0.8),
                    standardize=bool(rng.random() < 0.35), use_coslat=False, pairs=[], reals=[])
+    cfg["history"] = int(rng.integers(1, 1 << 30)) if rng.random() < 0.3 else 0
     cfg["layout"] = "x"
     if p % 2 == 0 and p >= 4 and rng.random() < 0.4:
         cfg["layout"] = "latlon"
@@ -120,6 +123,14 @@ def run_impl(cfg, X):
     da = build_da(cfg, X)
     m = xe.single.POP(n_modes=cfg["q"], center=cfg["center"], standardize=cfg["standardize"], use_coslat=cfg["use_coslat"],
                       use_pca=cfg["use_pca"], n_pca_modes=cfg["n_pca_modes"], solver="full")
+    if cfg.get("history"):
+        # the same object was fitted on other data and used before: every answer below must be that of the last fit
+        rngh = np.random.default_rng(cfg["history"])
+        other = C.other_like(rngh, da)
+        m.fit(other, "time")
+        C.exercise(m, other)
+        if cfg["history"] % 2:
+            C.exercise(m, da)
     m.fit(da, "time")
     d = m.data
     sn, fn = m.sample_name, m.feature_name
@@ -318,9 +329,9 @@ def correspondence(ctx, recs):
 
 def one(ctx, cfg, X, recs=None):
     replay = dict(cfg=cfg, data=np.asarray(X))
-    tag = "%s/%s/%s%s%s" % (cfg["kind"], "pca" if cfg["use_pca"] else "nopca", "c" if cfg["center"] else "-", "s" if cfg["standardize"] else "-",
-                            "w" if cfg["use_coslat"] else "-")
-    ctx.case(("c18", cfg["kind"], cfg["n"], cfg["p"], cfg["q"], cfg["use_pca"], cfg["center"], cfg["standardize"], cfg["use_coslat"], cfg["layout"],
+    tag = "%s/%s/%s%s%s%s" % (cfg["kind"], "pca" if cfg["use_pca"] else "nopca", "c" if cfg["center"] else "-", "s" if cfg["standardize"] else "-",
+                              "w" if cfg["use_coslat"] else "-", "/refit" if cfg.get("history") else "")
+    ctx.case(("c18", cfg["kind"], cfg["n"], cfg["p"], cfg["q"], cfg["use_pca"], cfg["center"], cfg["standardize"], cfg["use_coslat"], cfg["layout"], bool(cfg.get("history")),
               C.canon_hash(np.asarray(X).round(12).tolist())), nontrivial=cfg["q"] >= 2 and cfg["n"] > cfg["q"] + 1, tag=tag,
              sample=dict(kind=cfg["kind"], shape=[cfg["n"], cfg["p"]], n_pca_modes=cfg["q"], use_pca=cfg["use_pca"], center=cfg["center"],
                          standardize=cfg["standardize"], use_coslat=cfg["use_coslat"], layout=cfg["layout"], eigenvalues=cfg["pairs"]))
